@@ -210,7 +210,11 @@ def pipeline_case(draw):
                 edge_start=draw(st.one_of(st.just(0), st.integers(0, max(ne, 1)))),
                 erase_parents=draw(st.sampled_from(["keep", "null", "null", "garbage"])),
                 garbage=draw(st.lists(st.integers(-1, nm + 1), min_size=nm, max_size=nm)),
-                erase_times=draw(st.booleans()), resort=draw(st.booleans()))
+                erase_times=draw(st.booleans()), resort=draw(st.booleans()),
+                # history: the collection carries an index that no longer matches its edge rows (built before the
+                # rows were rearranged in place); afterwards build_index() is called only if has_index() is False
+                stale_index=draw(st.sampled_from([None, None, "reversed", "rotated", "identity"])),
+                edges_in_order=draw(st.integers(0, 3)) == 0)
 
 
 def prepare_pipeline(case):
@@ -247,6 +251,8 @@ def prepare_pipeline(case):
     # (3) rows before edge_start are the first rows of the documented order
     ne = len(orig["edges"])
     k = case["edge_start"] % (ne + 1)
+    if case.get("edges_in_order") and case.get("stale_index"):
+        k = ne
     order = sorted(range(ne), key=lambda j: U.edge_key(orig, orig["edges"][j]))
     head = order[:k]
     hs = set(head)
@@ -290,6 +296,18 @@ def run_pipeline(case, ctx):
     n = len(orig["nodes"])
 
     t = gen.build_tables(pspec, tskit, index=False)
+    stale = case.get("stale_index")
+    ne = len(pspec["edges"])
+    if stale and ne >= 2:
+        import numpy as np
+
+        ins = list(range(ne))
+        ins = ins[::-1] if stale == "reversed" else (ins[1:] + ins[:1] if stale == "rotated" else ins)
+        t.indexes = tskit.TableCollectionIndexes(np.array(ins, dtype=np.int32), np.array(ins[::-1], dtype=np.int32))
+        ctx.label("stale_index")
+        ctx.label("stale_index_edges_in_order", k == ne or list(P["e"]) == sorted(
+            range(ne), key=lambda j: U.edge_key(orig, orig["edges"][j])))
+    guard = bool(stale)
     s_in = U.snap(t)
     t.sort(edge_start=k)
     # ---- deduplicate_sites: first row of each position survives, mutation.site renumbered
@@ -303,7 +321,8 @@ def run_pipeline(case, ctx):
     if case["dups"] or case["resort"]:
         # documented: deduplicate_sites does not re-sort; edges are already in order
         t.sort(edge_start=len(t.edges))
-    t.build_index()
+    if not guard or not t.has_index():
+        t.build_index()
     b = gen.spec_from_tables(t, tskit)
     s0 = U.snap(t)
     t.compute_mutation_parents()
